@@ -332,16 +332,21 @@ ADDENDA5 = {
 
 ADDENDA6 = {
     "C01": " Round 6: R1.16 the exact classification table of C11 run on RobustLineIntersector::compute_intersection itself (every ordered pair of grid segments).",
-    "C02": " Round 6: R2.6 also holds a witness table of Polygon::calculate_coordinate_position (0, 1 and 2 holes, both hole orders, a hole in the notch of an L-shaped hole).",
-    "C07": " Round 6: R7.12 the point-location tables the zero shortcut and the containment branch stand on (shared with C02).",
-    "C08": " Round 6: R8.11 least_and_greatest_index on slices of 1..4 coordinates (equal-x runs included); R8.12 orient2d arguments in the hull code and in is_convex are bit-copies of inputs (C03 R3.4).",
+    "C02": " Round 6: R2.6 also holds a witness table of Polygon::calculate_coordinate_position (0, 1 and 2 holes, both hole orders, a hole in the notch of an L-shaped hole). R2.12 Contains folds over collections (Point contains a collection = non-empty and all members; MultiPolygon contains MultiPoint = all intersect and some interior; collection contains Coord = some member) on 0..3 abstract members; MultiPoint point-location table in R2.6.",
+    "C07": " Round 6: R7.12 the point-location tables the zero shortcut and the containment branch stand on (shared with C02). R7.13 distance of a Point / Line to a LineString and to a Polygon with a hole on a witness catalogue (segment kernels compositional): exact minimum over the segments of every ring, zero in the closed region.",
+    "C08": " Round 6: R8.11 least_and_greatest_index on slices of 1..4 coordinates (equal-x runs included); R8.12 orient2d arguments in the hull code and in is_convex are bit-copies of inputs (C03 R3.4). R8.13 = R3.8 (tie-break of the Graham scan).",
     "C12": " Round 6: R12.7 the Bentley-Ottmann step of the sweep interior_point's scan line runs on (right-end / point / left-end event on an abstract active list of 3..5 segments: pair tested, list afterwards); R12.8 intersect_line_ordered never hands back a point sorting before self.left().",
     "C13": " Round 6: R13.10 map_coords / try_map_coords / map_coords_in_place / try_map_coords_in_place of every geometry type on concrete shapes with an abstract function (96 tables): every coordinate mapped exactly once, in place.",
     "C14": " Round 6: R14.9 collection wrap tables (the defect of member j reaches the handler as Invalid*(GeometryIndex(j), ..); every member validated; Geometry wraps variant by variant); R14.10 Coord / Point / Line / Rect / Triangle / LineString tables: errors reported = exactly the defining checks that hold, no other decision.",
     "C15": " Round 6: R15.7 witnesses also at scale 1e-9 and 1e6; R15.9 LineString / MultiLineString length tables (shared with C16).",
     "C16": " Round 6: R16.9 LineString::length = sum over all consecutive pairs on every coordinate sequence over three positions (0..5 coordinates) and on a line string of 300 coordinates; MultiLineString::length on 0..3 members.",
     "C17": " Round 6: R17.4 every candidate pair of the segment index reaches add_intersections with the edges of its own graph (no filter between two graphs; within one graph only the documented same-edge exception); R17.5 no Relate impl overrides relate() (C01 R1.1).",
-    "C18": " Round 6: R18.8 container tables (From<Vec>, FromIterator, From<member>, new, into_iter, iter of MultiPoint / MultiLineString / MultiPolygon / GeometryCollection / LineString keep every member in order, unchanged).",
+    "C18": " Round 6: R18.8 container tables (From<Vec>, FromIterator, From<member>, new, into_iter, iter of MultiPoint / MultiLineString / MultiPolygon / GeometryCollection / LineString keep every member in order, unchanged). R18.3 is now a table: close() on all 31 coordinate sequences of length 0..4 over two concrete values.",
+    "C03": " Round 6: R3.8 Kernel::square_euclidean_distance on mixed-sign witnesses.",
+    "C06": " Round 6: R6.7 also holds the container folds of dimensions / boundary_dimensions (C01 R1.6).",
+    "C10": " Round 6: R10.11 MonoPoly point location (chains of 2 and 3 coordinates, vertical end edges, every query of a grid): Outside exactly when outside the polygon made of the two chains.",
+    "C11": " Round 6: R11.2 / R11.4 also walk every ordered pair of segments among four collinear points (horizontal, vertical, both diagonals).",
+    "C19": " Round 6: R19.4 is now the value-level map_coords tables of C13 R13.10 (96 tables) plus the stop-at-first-error rule; R19.10 also holds the container folds of dimensions (C01 R1.6).",
 }
 
 def main():
